@@ -38,7 +38,7 @@ type pop struct {
 	// emptyStr: the operand is an empty string, written "()" or "<>" (a blank
 	// line idiom with ' and "): nothing is shown, the line move still happens
 	emptyStr string
-	ref  string // font / form name
+	ref      string // font / form name
 }
 
 func (p pop) String() string {
@@ -107,6 +107,9 @@ type form struct {
 	// error (an unterminated string). Whatever a reader makes of such a form,
 	// the state after the Do must be the state before it.
 	damaged bool
+	// danglingRes: /Resources is a reference to an object that does not exist
+	// (reads as null): the form uses the page's resources, its /Matrix still applies
+	danglingRes bool
 }
 
 // data returns the form's content stream.
@@ -371,6 +374,10 @@ func (g *genState) newForm(depth int) *form {
 	if g.damagedForms && g.r.Intn(2) == 0 {
 		f.damaged = true
 		g.p.features["form-damaged-after-q"] = true
+	}
+	if !f.damaged && g.r.Intn(6) == 0 {
+		f.danglingRes = true
+		g.p.features["form-resources-dangling"] = true
 	}
 	// the font set inside a form does not leak out (Do is bracketed by q/Q),
 	// but one set before Do is inherited; haveFont only ever becomes true
